@@ -1,6 +1,9 @@
 import Mustache.Proofs.DispatcherOrder
+import Mustache.Proofs.DispatcherWait
 import Mustache.Proofs.DispatcherPFor
 import Mustache.Proofs.DispatcherMeasure
+import Mustache.Proofs.DispatcherFair
+import Mustache.Model.DispatcherAccess
 
 /-!
 # C08 — the dispatcher runs every submitted task exactly once and waits correctly
@@ -75,48 +78,8 @@ theorem wait_post {n : Nat} {s s' : State} {q : Nat} (hr : Reachable n s) (hm : 
     s'.mode = .api ∧
     (∀ t, t < s.waitSnap → s.tq t = q → t ∈ s'.done) ∧
     (q = 0 → ∀ th, 1 ≤ th → th ≤ n → ∃ p, s'.pcs[th]? = some p ∧ isWaiting p = true) ∧
-    s'.pcs[0]? = some Pc.idle := by
-  have hn := reachable_n hr
-  obtain ⟨hA, hB, hC⟩ := reachable_inv hr
-  simp only [step, hm] at hs
-  split at hs
-  · rename_i hg
-    cases hs
-    have hext : s.pcs[0]? = some Pc.idle := hB.ext_idle (Or.inr (Or.inl ⟨q, hm⟩))
-    have hterm : s.terminate = false := by
-      cases ht : s.terminate
-      · rfl
-      · have := hB.term_iff.mp ht; rw [hm] at this; simp [Mode.isShutdown] at this
-    have hallw : q = 0 → ∀ th, 1 ≤ th → th ≤ n → ∃ p, s.pcs[th]? = some p ∧ isWaiting p = true := by
-      intro hq0
-      have htw : s.pcs.countP isWaiting = n := by rw [← hC.tw_count, hg.1 hq0, hn]
-      exact all_waiting_of_count (by rw [hA.len, hn])
-        (by intro p hp; rw [hext] at hp; cases hp; rfl) htw
-    refine ⟨rfl, ?_, hallw, hext⟩
-    intro t ht htq
-    have hsnap := (hB.wait_q q (Or.inr hm)).2
-    rcases hA.cover t (by omega) with ⟨q', hq'⟩ | hst | hd
-    · have : q' = q := by rw [← hA.jobs_tq q' t hq', htq]
-      subst this
-      rw [hB.spin_empty q' hm] at hq'
-      simp at hq'
-    · rcases hA.started_cases t hst with hd | hrun
-      · exact hd
-      · exfalso
-        rw [htq] at hrun
-        by_cases hq0 : q = 0
-        · by_cases hth : s.runner t = 0
-          · rw [hth, hext] at hrun; cases hrun
-          · have hlt : s.runner t < s.pcs.length := (List.getElem?_eq_some_iff.mp hrun).1
-            rw [hA.len, hn] at hlt
-            obtain ⟨p, hp, hw⟩ := hallw hq0 (s.runner t) (by omega) (by omega)
-            rw [hrun] at hp; cases hp; simp [isWaiting] at hw
-        · have := (hC.hold_run q _ t hq0 hrun).1
-          rw [hg.2 hq0] at this
-          cases this
-    · rw [hA.dropped_term hterm] at hd
-      simp at hd
-  · cases hs
+    s'.pcs[0]? = some Pc.idle :=
+  wait_post_core hr hm hs
 
 /-- non-vacuity: one worker, two parallel tasks, the waiter helps with one; `wait` returns -/
 example : accepts 1 [.submit 0, .submit 0, .waitBegin 0, .wScan 1, .waitPop, .taskEnd 0, .relock 0,
@@ -335,5 +298,59 @@ theorem bounded_progress {n : Nat} {s s' : State} {a : Action} (hr : Reachable n
     have e2 : pcW Pc.sleeping = 0 := rfl
     simp only [progressMeasure, pendingCount] at h1 ⊢
     omega
+
+/-- Weak fairness of the scheduler: a thread that from some point on always has an enabled action which is
+neither a busy-wait iteration nor a new API call eventually takes such an action. -/
+def WeaklyFair {n : Nat} (r : InfRun n) : Prop :=
+  ∀ th i, (∀ j, i ≤ j → ∃ a : Action, a.thread = th ∧ a.isSpin = false ∧ a.isCall = false ∧ (step (r.st j) a).isSome = true) →
+    ∃ j, i ≤ j ∧ (r.act j).thread = th ∧ (r.act j).isSpin = false
+
+/-- FULL liveness claim ("a wait call always returns"): on every infinite run of the model, started anywhere
+inside `wait(q)`, with a weakly fair scheduler and finitely many spurious wake-ups, the call returns.
+NOT proved as stated; see `wait_returns_partial`. -/
+def wait_returns_statement : Prop :=
+  ∀ (n : Nat) (r : InfRun n) (q : Nat), InWait q (r.st 0) → WeaklyFair r → FinitelyManyWakes r →
+    ∃ i, (r.st i).mode = .api
+
+/-- Proved part: the call returns on every infinite run that keeps taking actions other than busy-wait
+iterations / spurious wake-ups (`KeepsProgressing`) and has finitely many spurious wake-ups.
+Missing for the full statement: the lift `WeaklyFair r → KeepsProgressing r` (the progress action that
+`no_deadlock` provides stays enabled until its thread moves), and — outside any model — that the OS
+scheduler is weakly fair and `std::condition_variable` wakes spuriously only finitely often. -/
+theorem wait_returns_partial {n : Nat} (r : InfRun n) (q : Nat) (h0 : InWait q (r.st 0))
+    (hA1 : KeepsProgressing r) (hA2 : FinitelyManyWakes r) : ∃ i, (r.st i).mode = .api :=
+  wait_returns_of_fair r h0 hA1 hA2
+
+private def s0 : State := { init 0 with mode := .waitLoop 0 }
+private def s1 : State := { init 0 with mode := .spin 0 }
+private def s2 : State := { init 0 with mode := .api, synced := syncedAfter s1 0 }
+private def s3 : State := { s2 with single := true }
+
+/-- non-vacuity of `wait_returns_partial`: a dispatcher without workers, `wait` on the empty parallel queue, then API calls forever -/
+def demoRun : InfRun 0 where
+  st := fun i => match i with | 0 => s0 | 1 => s1 | 2 => s2 | _ => s3
+  act := fun i => match i with | 0 => .waitEmpty | 1 => .spinExit | _ => .setSingle true
+  start := Reachable.step (.waitBegin 0) Reachable.init rfl
+  steps := by
+    intro i
+    match i with
+    | 0 => rfl
+    | 1 => rfl
+    | 2 => rfl
+    | (k + 3) => rfl
+
+example : InWait 0 (demoRun.st 0) ∧ KeepsProgressing demoRun ∧ FinitelyManyWakes demoRun := by
+  refine ⟨Or.inl rfl, ?_, ⟨0, ?_⟩⟩
+  · intro i
+    refine ⟨i, Nat.le_refl _, ?_⟩
+    match i with
+    | 0 => rfl
+    | 1 => rfl
+    | (k + 2) => rfl
+  · intro j _ th
+    match j with
+    | 0 => intro h; cases h
+    | 1 => intro h; cases h
+    | (k + 2) => intro h; cases h
 
 end Mustache.Props.C08
